@@ -90,6 +90,19 @@ func (st regStub) OpenTunnel(ctx context.Context, opts ...grpc.CallOption) (grpc
 
 func (st regStub) OpenReverseTunnel(ctx context.Context, opts ...grpc.CallOption) (grpc.BidiStreamingClient[tunnelpb.ServerToClient, tunnelpb.ClientToServer], error) {
 	s, t := st.s, st.t
+	// a further Serve call on the same server opens a tunnel of its own (known under its own number,
+	// carried in the opening metadata): it must not take over the first tunnel's carrier and bookkeeping
+	if md, ok := metadata.FromOutgoingContext(ctx); ok {
+		if v := md.Get("x-tun"); len(v) > 0 {
+			var n int
+			fmt.Sscanf(v[0], "%d", &n)
+			s.mu.Lock()
+			if o := s.tun[n]; o != nil {
+				t = o
+			}
+			s.mu.Unlock()
+		}
+	}
 	car := sim.New(ctx, sim.Options{T: t.t, Reverse: true, Auto: true})
 	s.mu.Lock()
 	t.car = car
